@@ -364,8 +364,13 @@ int main(int argc, char** argv) {
   const auto part_of = [&](const char* p) { return only.empty() || only.rfind(p, 0) == 0; };
   if (part_of("resume")) part_resume(only);
   if (part_of("thread")) part_thread(only);
-  if (part_of("dealloc")) part_dealloc(only);
-  if (part_of("length")) {
+  // the remaining parts (and the destructors of the OLC indexes they create) need QSBR back in its idle state; a failed
+  // operation that left a trace there has been reported above
+  const bool qsbr_idle = thread_count() == 1 && !unodb::this_thread().is_qsbr_paused();
+  if (!qsbr_idle && g_violations.empty())
+    violation("C08/qsbr/state-changed", "QSBR is not back in its idle state (one registered thread) after the failed operations", "thread:0");
+  if (qsbr_idle && part_of("dealloc")) part_dealloc(only);
+  if (qsbr_idle && part_of("length")) {
     length_checks<unodb::db<unodb::key_view, unodb::value_view>>("db", only);
     length_checks<unodb::olc_db<unodb::key_view, unodb::value_view>>("olc_db", only);
   }
